@@ -145,8 +145,7 @@ Definition step_C05 (pd : digest) (o : op) (ob : obs) : bool :=
           mset_eqb (fun a b => N.eqb (fst a) (fst b) && smsg_eqb (snd a) (snd b)) copies expect
           (* never back to the sender - except the copy for one of the sender's own virtual sessions, which
              lives on the sender's connection (recipient rewritten to the virtual id) *)
-          && forallb (fun e => negb (N.eqb (fst e) c) ||
-                               match snd e with SMsg _ _ _ _ (Some (RcptVirtual _)) _ => true | _ => false end) copies
+          && forallb (fun e => negb (N.eqb (fst e) c) || match snd e with SMsg _ _ _ _ (Some (RcptVirtual _)) _ => true | _ => false end) copies
       end
   | _ => true
   end.
